@@ -258,14 +258,24 @@ def snapshots_dir():
     tars = []
     for sub in ("linux", "x86", "x86+linux", "linux/allowed"):
         tars += sorted(glob.glob(os.path.join(REPO, "tests/hwloc", sub, "*.tar.bz2")))
-    for t in tars:
-        st = os.stat(t)
-        h.update(("%s:%d:%d" % (os.path.relpath(t, REPO), st.st_size, int(st.st_mtime))).encode())
+    for t in tars:      # keyed by content: every checkout of the same tarballs shares one extraction, whatever its path or mtimes
+        h.update(os.path.relpath(t, REPO).encode() + b"\0")
+        with open(t, "rb") as fh:
+            h.update(hashlib.sha256(fh.read()).digest())
     d = os.path.join(CACHE, "snapshots", h.hexdigest()[:16])
     with Lock(os.path.join(CACHE, "locks", "snapshots")):
         if os.path.exists(os.path.join(d, "DONE")):
+            os.utime(d)
             return d
-        shutil.rmtree(os.path.join(CACHE, "snapshots"), ignore_errors=True)
+        # other extractions may be in use by a check running on another tree: only remove those not used for a day
+        try:
+            for other in os.listdir(os.path.join(CACHE, "snapshots")):
+                po = os.path.join(CACHE, "snapshots", other)
+                if po != d and time.time() - os.path.getmtime(po) > 86400:
+                    shutil.rmtree(po, ignore_errors=True)
+        except FileNotFoundError:
+            pass
+        shutil.rmtree(d, ignore_errors=True)
         os.makedirs(d)
         t0 = time.time()
 
